@@ -263,6 +263,36 @@ def rt_nested_objects(depth: int, i: int, s: str, in_list: bool) -> bool:
     return _rt(o, 0)
 
 
+def _longseq(n, kind, pos, s, i):
+    """a sequence of n members that is not all-numeric (stored member by member): strings that name their position, one
+    member replaced by the symbolic payload, one by a nested list"""
+    seq = ["m%d" % k for k in range(n)]
+    if n:
+        seq[pos if pos < n else n - 1] = s
+        seq[0] = [i, "first"] if kind >= 2 else seq[0]
+    o = Obj()
+    seq = tuple(seq) if kind in (1, 3) else seq
+    o.v = seq if kind < 4 else {"k": [seq, "x"]}
+    return o
+
+
+def rt_long_seq(n: int, kind: int, pos: int, s: str, i: int, store: int) -> bool:
+    """element order of sequences of every length 0..23 (member keys "0".."22": one, two digits)
+
+    pre: 0 <= n <= 23 and 0 <= kind <= 4 and 0 <= pos <= 22 and len(s) <= 2 and 0 <= store <= 1
+    pre: _fix("n", n) and _fix("kind", kind) and _fix("store", store)
+    post: __return__ == True
+    """
+    for k in range(24):
+        if n == k:
+            return _rt(_longseq(k, kind, pos, s, i), store, twice=False)
+    return False
+
+
+def real__rt_long_seq(n, kind, pos, s, i, store):
+    return _real(_longseq(n, kind, pos, s, i))
+
+
 KEYS = ["k", "0", "10", "values", "a b", "x.y", "tensor", "_k", "K", "is_path", "é"]
 NAMES = ["v", "values", "_p", "x0", "tensor", "module", "a_b", "V"]
 
